@@ -11,7 +11,7 @@
    The private group itself (dispatch_group_wait / _notify / _leave) is abstracted as stated in Block.v; its own
    correctness is property C07. *)
 From Coq Require Import ZArith Bool List.
-From Verif Require Import Word Conc Gen_consts Gen_fields Gen_group Gen_block Block Block_proofs.
+From Verif Require Import Word Conc Gen_consts Gen_fields Gen_group Gen_block Block Block_proofs BlockR BlockR_proofs.
 Import ListNotations.
 Local Open Scope Z_scope.
 
@@ -186,6 +186,17 @@ Theorem C19_conformance_automaton_sound : forall self pf tr, conform self pf tr 
   exists p l, vpath self PIdle tr p /\ lat_path self p l PIdle.
 Proof. exact conform_sound. Qed.
 Print Assumptions C19_conformance_automaton_sound.
+
+(* whole-round replay (Model/BlockR.v): the scheduler only takes steps of Block.gstep, so the state whose words and
+   counters a successful replay of a recorded round reports is reachable; the boolean invariant evaluated on it is true of
+   every reachable state (a `false` would be a broken proof, not a property of the library) *)
+Theorem C19_replay_reach : forall pf w qs ord,
+  reach pf (fst (fst (fst (fst (sched (S (length ord)) w (map fst qs) (init_state pf) qs ord 0 0))))).
+Proof. exact replay_reach. Qed.
+Print Assumptions C19_replay_reach.
+Theorem C19_inv_b_reach : forall pf s ths, reach pf s -> inv_b s ths = true.
+Proof. exact inv_b_reach. Qed.
+Print Assumptions C19_inv_b_reach.
 
 (* ---- non-vacuity ---- *)
 (* a concrete schedule: 7 submits by dispatch_async; 9 waits with a finite timeout (takes the boost queue, sleeps
